@@ -465,15 +465,106 @@ Section Float64.
   Qed.
 End Float64.
 
-(* Z.quot is truncation toward zero *)
+(* Z.quot is truncation toward zero: D = q * u + r with |r| < u and r of the sign of D *)
 Lemma quot_is_trunc : forall D u, 0 < u ->
-  Z.abs (Z.quot D u) * u <= Z.abs D < (Z.abs (Z.quot D u) + 1) * u /\ (0 <= D -> 0 <= Z.quot D u) /\ (D <= 0 -> Z.quot D u <= 0).
+  exists r, D = Z.quot D u * u + r /\ Z.abs r < u /\ (0 <= D -> 0 <= r) /\ (D <= 0 -> r <= 0).
 Proof.
-  intros D u Hu. pose proof (Z.quot_rem D u ltac:(lia)) as E.
+  intros D u Hu. exists (Z.rem D u).
+  pose proof (Z.quot_rem' D u) as E.
   pose proof (Z.rem_bound_abs D u ltac:(lia)) as B.
-  destruct (Z_le_gt_dec 0 D) as [Hp|Hn].
-  - pose proof (Z.rem_nonneg D u ltac:(lia) Hp). pose proof (Z.quot_pos D u Hp Hu). repeat split; try nia.
-  - pose proof (Z.rem_nonpos D u ltac:(lia) ltac:(lia)). pose proof (Z.quot_neg D u).
-    assert (Z.quot D u <= 0). { rewrite <- (Z.opp_involutive D). rewrite Z.quot_opp_l by lia. pose proof (Z.quot_pos (-D) u ltac:(lia) Hu). lia. }
-    repeat split; try nia.
+  split; [lia|]. split; [lia|]. split; intros H.
+  - apply Z.rem_nonneg; lia.
+  - apply Z.rem_nonpos; lia.
+Qed.
+
+(* ------------------------------------------------------------------ 5. closed float facts, by kernel computation on the SpecFloat model *)
+(* instances of Hrt at the borders: +-(2^k s + j us) for every k <= 32, and the very top of the exact range *)
+Definition rt_border_points : list Z :=
+  flat_map (fun k => flat_map (fun j => [2 ^ k * 1000000 + j; - (2 ^ k * 1000000) - j]) [-2; -1; 0; 1; 2; 499999; 500000; 999999])
+           [0; 1; 5; 10; 16; 20; 21; 22; 23; 24; 25; 26; 27; 28; 29; 30; 31; 32]
+  ++ [B33 - 1; 1 - B33; B33 - 2; B33 - 500000; 0].
+
+Lemma roundtrip_borders : Forall (fun N => Z.abs N < B33 /\ td_of_float_seconds (total_seconds N) = Ok N) rt_border_points.
+Proof.
+  assert (H : forallb (fun N => (Z.abs N <? B33) && roundtripb N) rt_border_points = true) by (vm_compute; reflexivity).
+  rewrite forallb_forall in H. apply Forall_forall. intros N HN. specialize (H N HN).
+  apply andb_prop in H. destruct H as [H1 H2]. split; [lia|].
+  unfold roundtripb in H2. destruct (td_of_float_seconds (total_seconds N)) as [M|]; [|discriminate].
+  apply Z.eqb_eq in H2. congruence.
+Qed.
+
+(* instances of Hdiv: spans of k units -1us / exact / +1us, both signs, are truncated correctly by int(total_seconds() / unit) *)
+Definition div_truncb (unit N : Z) : bool :=
+  match py_int_trunc (fdiv (total_seconds N) (sf_of_Z unit)) with Ok q => q =? Z.quot N (unit * 1000000) | Raise _ => false end.
+Definition unit_boundaryb (unit k : Z) : bool :=
+  let B := k * unit * 1000000 in
+  div_truncb unit (B - 1) && div_truncb unit B && div_truncb unit (B + 1) &&
+  div_truncb unit (1 - B) && div_truncb unit (- B) && div_truncb unit (- B - 1).
+
+Lemma div_trunc_small_k : forall unit k, (unit = 1 \/ unit = 60 \/ unit = 3600) -> 0 <= k <= 600 ->
+  forall d, (d = -1 \/ d = 0 \/ d = 1) ->
+  py_int_trunc (fdiv (total_seconds (k * unit * 1000000 + d)) (sf_of_Z unit)) = Ok (Z.quot (k * unit * 1000000 + d) (unit * 1000000)) /\
+  py_int_trunc (fdiv (total_seconds (- (k * unit * 1000000) - d)) (sf_of_Z unit)) = Ok (Z.quot (- (k * unit * 1000000) - d) (unit * 1000000)).
+Proof.
+  intros unit k Hu Hk d Hd.
+  assert (H : forall_range (unit_boundaryb 1) 0 600 && forall_range (unit_boundaryb 60) 0 600 && forall_range (unit_boundaryb 3600) 0 600 = true)
+    by (vm_compute; reflexivity).
+  apply andb_prop in H. destruct H as [H H3]. apply andb_prop in H. destruct H as [H1 H2].
+  assert (K : unit_boundaryb unit k = true).
+  { destruct Hu as [-> | [-> | ->]]; [exact (forall_range_spec _ _ _ H1 k Hk) | exact (forall_range_spec _ _ _ H2 k Hk) | exact (forall_range_spec _ _ _ H3 k Hk)]. }
+  unfold unit_boundaryb in K. cbv zeta in K.
+  repeat (apply andb_prop in K; destruct K as [K ?]).
+  assert (S : forall N, div_truncb unit N = true -> py_int_trunc (fdiv (total_seconds N) (sf_of_Z unit)) = Ok (Z.quot N (unit * 1000000))).
+  { intros N. unfold div_truncb. destruct (py_int_trunc _) as [q|]; [|discriminate]. intros E. apply Z.eqb_eq in E. congruence. }
+  destruct Hd as [-> | [-> | ->]]; split; apply S;
+  repeat match goal with
+         | |- div_truncb _ ?x = true => match goal with Hh : div_truncb _ ?y = true |- _ => replace x with y by lia; exact Hh end
+         end.
+Qed.
+
+(* ... and around every power of two of k up to the top of the exact range (k*unit < 2^33 s) *)
+Definition pow2_ks (unit : Z) : list Z :=
+  filter (fun k => (0 <? k) && ((k + 1) * unit <? 8589934592))
+         (flat_map (fun p => [2 ^ p - 1; 2 ^ p; 2 ^ p + 1]) [1; 2; 3; 4; 5; 6; 7; 8; 9; 10; 11; 12; 13; 14; 15; 16; 17; 18; 19; 20; 21; 22; 23; 24; 25; 26; 27; 28; 29; 30; 31; 32; 33])
+  ++ [8589934592 / unit - 1].
+Lemma div_trunc_pow2 : forall unit, (unit = 1 \/ unit = 60 \/ unit = 3600) ->
+  Forall (fun k => unit_boundaryb unit k = true /\ (k + 1) * unit * 1000000 <= B33) (pow2_ks unit).
+Proof.
+  intros unit Hu. apply Forall_forall. intros k Hk.
+  assert (H : forallb (fun k => unit_boundaryb unit k && ((k + 1) * unit * 1000000 <=? B33)) (pow2_ks unit) = true)
+    by (destruct Hu as [-> | [-> | ->]]; vm_compute; reflexivity).
+  rewrite forallb_forall in H. specialize (H k Hk). apply andb_prop in H. destruct H. split; [assumption|lia].
+Qed.
+
+(* instances of H64 at the far end, with the deviations *)
+Lemma within_64_far : Forall (fun N => exists M, td_of_float_seconds (total_seconds N) = Ok M /\ Z.abs (M - N) <= 64 /\ B33 <= Z.abs N <= SPAN_MAX)
+  [SPAN_MAX; - SPAN_MAX; SPAN_MAX - 1; 3652059 * 86400000000 - 1; 2 ^ 38 * 1000000 + 1; 2 ^ 38 * 1000000 - 1; - (2 ^ 37 * 1000000) - 31; 17999999999999999; B33; B33 + 1].
+Proof.
+  repeat (apply Forall_cons; [eexists; split; [vm_compute; reflexivity | vm_compute; repeat split; discriminate]|]). apply Forall_nil.
+Qed.
+
+(* the boundary of the claim is sharp: one microsecond beyond 2^33 s the length is off by one microsecond ... *)
+Definition utc_ep (W : Z) : ep := mkep true false UTC_ID UTC_ID false (fixed_zone 0) W false.
+Lemma length_exact_beyond_refuted :
+  exists i, interval_make (utc_ep 0) (utc_ep (B33 + 1)) false = Ok i /\
+            ep_inst (utc_ep (B33 + 1)) - ep_inst (utc_ep 0) = B33 + 1 /\ d_N (i_dur i) = B33 + 2.
+Proof. eexists. split; [vm_compute; reflexivity|]. split; vm_compute; reflexivity. Qed.
+
+(* ... and the truncation claims fail with it: 5 000 000 hours minus one microsecond has in_hours() = 5 000 000, in_seconds() = 18 000 000 000 *)
+Lemma in_units_beyond_refuted :
+  exists i, interval_make (utc_ep 1000000) (utc_ep (1000000 + 17999999999999999)) false = Ok i /\
+            dur_in_hours (i_dur i) = Ok 5000000 /\ Z.quot 17999999999999999 3600000000 = 4999999 /\
+            dur_in_seconds (i_dur i) = Ok 18000000000 /\ Z.quot 17999999999999999 1000000 = 17999999999.
+Proof. eexists. split; [vm_compute; reflexivity|]. repeat split; vm_compute; reflexivity. Qed.
+
+(* non-vacuity of the hypotheses used above *)
+Example hypotheses_satisfiable :
+  (e_dt par_a = true /\ aware par_a = true /\ aware par_b = true /\ same_tz par_a par_b = true) /\
+  order_agrees par_a (utc_ep 5) /\ ~ order_agrees par_a par_b /\
+  (exists i, interval_make (utc_ep 7) par_a false = Ok i /\ Z.abs (ep_inst par_a - ep_inst (utc_ep 7)) <= SPAN_MAX /\ ~ Z.abs (ep_inst par_a - ep_inst (utc_ep 7)) < B33) /\
+  (exists i, interval_make par_b par_a false = Ok i /\ Z.abs (ep_inst par_a - ep_inst par_b) < B33).
+Proof.
+  split; [vm_compute; repeat split; reflexivity|]. split; [intros H; vm_compute in H; discriminate|].
+  split; [intros H; specialize (H eq_refl); vm_compute in H; discriminate|].
+  split; eexists; (split; [vm_compute; reflexivity|]); vm_compute; repeat split; try discriminate; intros H; discriminate.
 Qed.
